@@ -47,6 +47,9 @@ pub enum Op {
     RemoveFaulty(u8),
     /// MultiProgress::println on the subject's MultiProgress
     MpPrintln,
+    /// new bars inserted after and before the subject in its MultiProgress and ticked
+    /// (insert_after / insert_before / insert_from_back)
+    MpInsertAround,
 }
 
 pub struct C06 {
@@ -183,6 +186,9 @@ impl Hist for C06 {
         }
         if matches!(self.flavour, Flavour::HiddenMulti | Flavour::NotATtyMulti) {
             out.insert(0, Op::MpPrintln);
+            if !prefix.iter().any(|o| matches!(o, Op::Remove)) {
+                out.insert(1, Op::MpInsertAround);
+            }
         }
         if self.flavour == Flavour::RemovedFromMulti && !prefix.iter().any(|o| matches!(o, Op::Remove | Op::RemoveFaulty(_))) {
             out.insert(0, Op::Remove);
@@ -215,7 +221,7 @@ impl Hist for C06 {
         let subject = match self.flavour {
             Flavour::HiddenTarget => mk(),
             Flavour::NotATty => ProgressBar::new(5).with_style(style(2)).with_finish(self.fin.real()),
-            Flavour::NotATtyHz => ProgressBar::with_draw_target(Some(5), ProgressDrawTarget::stderr_with_hz(200)).with_style(style(2)).with_finish(self.fin.real()),
+            Flavour::NotATtyHz => ProgressBar::with_draw_target(Some(5), ProgressDrawTarget::stderr_with_hz(255)).with_style(style(2)).with_finish(self.fin.real()),
             Flavour::HiddenMulti => {
                 let m = MultiProgress::with_draw_target(ProgressDrawTarget::hidden());
                 let b = m.add(mk());
@@ -314,6 +320,15 @@ impl Hist for C06 {
                 }
                 Op::MpPrintln => {
                     let _ = mp.as_ref().unwrap().println("two\nlines");
+                }
+                Op::MpInsertAround => {
+                    let m = mp.as_ref().unwrap();
+                    let x = m.insert_after(&subject, mk());
+                    let y = m.insert_before(&subject, mk());
+                    let z = m.insert_from_back(1, mk());
+                    x.tick();
+                    y.inc(1);
+                    z.finish();
                 }
                 Op::RemoveFaulty(k) => {
                     let at = spy.st().fallible_calls + *k as usize;
